@@ -19,7 +19,14 @@ KINDS = {
     "r3": ("hoisting, renaming, (de-)vectorising",
            "hoist loop invariants, rename local variables to clearer names, reorder independent statements, and vectorise one small loop (or turn one vectorised "
            "expression into an explicit loop) where that is exactly equivalent"),
+    "r4": ("modernisation: type hints, pathlib / f-strings, current NumPy / pandas API, guard clauses, dataclass-style containers",
+           "modernise the code the way a maintainer would in a housekeeping pull request: add type hints and docstring fixes, replace deprecated or dated NumPy / pandas / stdlib "
+           "spellings by current equivalents (np.r_ / np.c_ <-> concatenate / column_stack, dict(zip()) <-> comprehensions, os.path <-> pathlib, % / format <-> f-strings, "
+           "np.int16(x) <-> x.astype(np.int16) where exactly equivalent), turn nested conditions into guard clauses, name magic numbers as module constants, and tidy "
+           "imports - all without changing any result"),
 }
+if os.environ.get("TWIN_KINDS"):
+    KINDS = {k: v for k, v in KINDS.items() if k in os.environ["TWIN_KINDS"].split(",")}
 for line in open(os.path.join(HERE, "properties.jsonl")):
     p = json.loads(line)
     pid = p["id"]
